@@ -45,9 +45,11 @@ theorem classify_eq_sib {r : Int} (h : classify r = .sib) : r = SKIP_SIBLINGS :=
     · assumption
     · cases h
 
-/-- a `stop r` outcome carries a code that some handler invocation answered, and that code is no navigation answer
-    other than END -/
-def FromProg (p : Prog) (r : Int) : Prop := (∃ k e, p k e = r) ∧ isStop r
+/-- a `stop r` outcome carries a code that is no navigation answer other than END (a handler's answer, or the code of a
+    failure point of the tree) -/
+def FromProg (_p : Prog) (r : Int) : Prop := isStop r
+
+theorem isStop_empty : isStop EMPTY_LOOP := by decide
 
 theorem finish_stop (p : Prog) (e : Ev) (x : Out × W) (w' : W) (r : Int)
     (hx : ∀ r' w1, x = (.stop r', w1) → FromProg p r') (h : finish p e x = (.stop r, w')) : FromProg p r := by
@@ -57,7 +59,7 @@ theorem finish_stop (p : Prog) (e : Ev) (x : Out × W) (w' : W) (r : Int)
     simp only [finish] at h
     injection h with h1 h2
     have := classify_eq_stop h1
-    exact ⟨⟨_, _, this.1.symm⟩, this.1 ▸ this.2⟩
+    exact this.1 ▸ this.2
   | sib => simp [finish] at h
   | stop r' =>
     simp only [finish] at h
@@ -72,7 +74,12 @@ mutual
       simp only [run] at h
       injection h with h1 h2
       have := classify_eq_stop h1
-      exact ⟨⟨_, _, this.1.symm⟩, this.1 ▸ this.2⟩
+      exact this.1 ▸ this.2
+    | .fail, w, w', r, h => by
+      simp only [run] at h
+      injection h with h1 h2
+      injection h1 with h1
+      exact h1 ▸ isStop_empty
     | .node s g1 g2 e, w, w', r, h => by
       simp only [run] at h
       by_cases hc : p w.n s = CONTINUE
@@ -95,7 +102,7 @@ mutual
       · simp only [hc, if_false] at h
         injection h with h1 h2
         have := classify_eq_stop h1
-        exact ⟨⟨_, _, this.1.symm⟩, this.1 ▸ this.2⟩
+        exact this.1 ▸ this.2
   theorem runList_stop (p : Prog) : ∀ (ts : List ETree) (w w' : W) (r : Int), runList p ts w = (.stop r, w') → FromProg p r
     | [], w, w', r, h => by simp [runList] at h
     | t :: ts, w, w', r, h => by
@@ -163,7 +170,7 @@ theorem walkPacket_eq (p : Prog) (pk : List (Str × V)) (w : W) :
     | sib => simp only [toItems, finish]; rw [classify_go (Or.inl rfl)]
     | stop r =>
       simp only [toItems, finish]
-      rw [isStop_classify (runList_stop p _ _ _ _ hx).2]
+      rw [isStop_classify (runList_stop p _ _ _ _ hx)]
   · simp only [hc, if_false, ne_eq, not_false_eq_true, if_true]
 
 /-- `stopped` and `result` when the packet loop of walk_loop is left, from the outcome of the group of packets -/
@@ -184,36 +191,43 @@ theorem walkPackets_eq (p : Prog) : ∀ (pks : List (List (Str × V))) (w : W),
     · simp only [h, sib_not_go, if_false, if_true, classify_sib, toPackets]
     · simp only [h1, h2, if_false, classify_stop h1 h2, toPackets]
 
-theorem walkLoop_eq (p : Prog) (l : WLoop) (hl : l.packets.isEmpty = false) (w : W) :
+theorem walkLoop_eq (p : Prog) (l : WLoop) (w : W) :
     (classify (walkLoop p l w).1, (walkLoop p l w).2) = run p (loopTree l) w := by
-  simp only [walkLoop, loopTree, run, runList, call, hl]
-  by_cases hc : p w.n (.loopStart l.category l.names) = CONTINUE
-  · simp only [hc, if_true, ne_eq, not_true_eq_false, if_false, Bool.false_eq_true]
-    simp only [walkPackets_eq]
-    generalize hx : runList p (l.packets.map packetTree) _ = x
-    rcases x with ⟨o, w2⟩
-    cases o with
-    | go => simp [toPackets, finish, call]
-    | sib =>
-      simp only [toPackets, finish, true_or, if_true]
-      rw [classify_go (Or.inl rfl)]
-    | stop r =>
-      have hr := runList_stop p _ _ _ _ hx
-      simp only [toPackets, finish, true_or, if_true]
-      rw [isStop_classify hr.2]
-  · simp only [hc, if_false, ne_eq, not_false_eq_true, if_true]
+  by_cases hl : l.packets.isEmpty = true
+  · simp only [walkLoop, loopTree, run, runList, call, hl, if_true]
+    by_cases hc : p w.n (.loopStart l.category l.names) = CONTINUE
+    · simp only [hc, if_true, ne_eq, not_true_eq_false, if_false, finish]
+      rw [isStop_classify isStop_empty]
+    · simp only [hc, if_false, ne_eq, not_false_eq_true, if_true]
+  · have hl' : l.packets.isEmpty = false := by simpa using hl
+    simp only [walkLoop, loopTree, run, runList, call, hl', Bool.false_eq_true, if_false]
+    by_cases hc : p w.n (.loopStart l.category l.names) = CONTINUE
+    · simp only [hc, if_true, ne_eq, not_true_eq_false, if_false, Bool.false_eq_true]
+      simp only [walkPackets_eq]
+      generalize hx : runList p (l.packets.map packetTree) _ = x
+      rcases x with ⟨o, w2⟩
+      cases o with
+      | go => simp [toPackets, finish, call]
+      | sib =>
+        simp only [toPackets, finish, true_or, if_true]
+        rw [classify_go (Or.inl rfl)]
+      | stop r =>
+        have hr := runList_stop p _ _ _ _ hx
+        simp only [toPackets, finish, true_or, if_true]
+        rw [isStop_classify hr]
+    · simp only [hc, if_false, ne_eq, not_false_eq_true, if_true]
 
 theorem walkLoopsFrom_eq (p : Prog) : ∀ (ls : List WLoop) (res : Int) (w : W),
-    (∀ l ∈ ls, l.packets.isEmpty = false) → (res = CONTINUE ∨ res = SKIP_CURRENT) →
+    (res = CONTINUE ∨ res = SKIP_CURRENT) →
     (classify (walkLoopsFrom p ls res w).1, (walkLoopsFrom p ls res w).2) = runList p (ls.map loopTree) w
-  | [], res, w, _, hres => by simp [walkLoopsFrom, runList, classify_go hres]
-  | l :: ls, res, w, hl, _ => by
+  | [], res, w, hres => by simp [walkLoopsFrom, runList, classify_go hres]
+  | l :: ls, res, w, _ => by
     simp only [walkLoopsFrom, List.map, runList]
-    rw [← walkLoop_eq p l (hl l (List.mem_cons_self ..))]
+    rw [← walkLoop_eq p l]
     rcases three (walkLoop p l w).1 with h | h | ⟨h1, h2⟩
     · have h' : (walkLoop p l w).1 = SKIP_CURRENT ∨ (walkLoop p l w).1 = CONTINUE := h.symm
       simp only [h', if_true, classify_go h]
-      exact walkLoopsFrom_eq p ls _ _ (fun l' hl' => hl l' (List.mem_cons_of_mem _ hl')) h
+      exact walkLoopsFrom_eq p ls _ _ h
     · have h' : ¬ ((walkLoop p l w).1 = SKIP_CURRENT ∨ (walkLoop p l w).1 = CONTINUE) := by
         rw [h]; decide
       simp only [h', if_false]
@@ -234,8 +248,7 @@ theorem loops_all {loops : List WLoop} (h : loops.all (fun l => !l.packets.isEmp
   simpa using this
 
 /-- the tail of walk_container after the frames, against `finish` -/
-theorem contTail_eq (p : Prog) (loops : List WLoop) (hl : ∀ l ∈ loops, l.packets.isEmpty = false)
-    (e : Ev) (w1 : W) :
+theorem contTail_eq (p : Prog) (loops : List WLoop) (e : Ev) (w1 : W) :
     (classify
         (if (walkLoops p loops w1).1 = CONTINUE ∨ (walkLoops p loops w1).1 = SKIP_CURRENT then
           call p (walkLoops p loops w1).2 e
@@ -246,7 +259,7 @@ theorem contTail_eq (p : Prog) (loops : List WLoop) (hl : ∀ l ∈ loops, l.pac
         else if (walkLoops p loops w1).1 = SKIP_SIBLINGS then (CONTINUE, (walkLoops p loops w1).2)
         else ((walkLoops p loops w1).1, (walkLoops p loops w1).2)).2)
       = finish p e (runList p (loops.map loopTree) w1) := by
-  have h := walkLoopsFrom_eq p loops OK w1 hl (Or.inl rfl)
+  have h := walkLoopsFrom_eq p loops OK w1 (Or.inl rfl)
   unfold walkLoops
   rw [← h]
   rcases three (walkLoopsFrom p loops OK w1).1 with h0 | h0 | ⟨h1, h2⟩
@@ -256,39 +269,37 @@ theorem contTail_eq (p : Prog) (loops : List WLoop) (hl : ∀ l ∈ loops, l.pac
   · simp only [h1, h2, if_false, classify_stop h1 h2, finish]
 
 mutual
-  theorem walkCont_eq (p : Prog) : ∀ (d : Nat) (c : WCont) (w : W), noEmptyLoop c = true →
+  theorem walkCont_eq (p : Prog) : ∀ (d : Nat) (c : WCont) (w : W),
       (classify (walkCont p d c w).1, (walkCont p d c w).2) = run p (contTree d c) w
-    | d, .mk code frames loops, w, hc => by
-      simp only [noEmptyLoop, Bool.and_eq_true] at hc
+    | d, .mk code frames loops, w => by
       simp only [walkCont, contTree, run, call]
       by_cases hs : p w.n (if d = 0 then Ev.blockStart code else Ev.frameStart code) = CONTINUE
       · simp only [hs, if_true, ne_eq, not_true_eq_false, if_false]
         have hf := walkFrames_eq p (d + 1) frames
-          { n := w.n + 1, log := (if d = 0 then Ev.blockStart code else Ev.frameStart code) :: w.log } hc.1
+          { n := w.n + 1, log := (if d = 0 then Ev.blockStart code else Ev.frameStart code) :: w.log }
         rw [hf]
         generalize hx : runList p (contTrees (d + 1) frames) _ = x
         rcases x with ⟨o, w1⟩
         cases o with
         | go =>
           simp only [toFrames]
-          exact contTail_eq p loops (loops_all hc.2) _ w1
+          exact contTail_eq p loops _ w1
         | sib =>
           simp only [toFrames]
-          exact contTail_eq p loops (loops_all hc.2) _ w1
+          exact contTail_eq p loops _ w1
         | stop r =>
           simp only [toFrames]
-          rw [isStop_classify (runList_stop p _ _ _ _ hx).2]
+          rw [isStop_classify (runList_stop p _ _ _ _ hx)]
       · simp only [hs, if_false, ne_eq, not_false_eq_true, if_true]
-  theorem walkFrames_eq (p : Prog) : ∀ (d : Nat) (fs : List WCont) (w : W), noEmptyLoops fs = true →
+  theorem walkFrames_eq (p : Prog) : ∀ (d : Nat) (fs : List WCont) (w : W),
       walkFrames p d fs w = toFrames (runList p (contTrees d fs) w)
-    | d, [], w, _ => by simp [walkFrames, contTrees, runList, toFrames]
-    | d, f :: fs, w, hc => by
-      simp only [noEmptyLoops, Bool.and_eq_true] at hc
+    | d, [], w => by simp [walkFrames, contTrees, runList, toFrames]
+    | d, f :: fs, w => by
       simp only [walkFrames, contTrees, runList]
-      rw [← walkCont_eq p d f w hc.1]
+      rw [← walkCont_eq p d f w]
       rcases three (walkCont p d f w).1 with h | h | ⟨h1, h2⟩
       · simp only [h, if_true, classify_go h]
-        exact walkFrames_eq p d fs _ hc.2
+        exact walkFrames_eq p d fs _
       · simp only [h, sib_not_go, if_false, if_true, classify_sib, toFrames]
       · simp only [h1, h2, if_false, classify_stop h1 h2, toFrames]
 end
@@ -299,16 +310,15 @@ def toBlocks : Out × W → Option Int × W
   | (.sib, w) => (some OK, w)
   | (.stop r, w) => (some (if r = END then OK else r), w)
 
-theorem walkBlocks_eq (p : Prog) : ∀ (bs : List WCont) (w : W), noEmptyLoops bs = true →
+theorem walkBlocks_eq (p : Prog) : ∀ (bs : List WCont) (w : W),
     walkBlocks p bs w = toBlocks (runList p (contTrees 0 bs) w)
-  | [], w, _ => by simp [walkBlocks, contTrees, runList, toBlocks]
-  | b :: bs, w, hc => by
-    simp only [noEmptyLoops, Bool.and_eq_true] at hc
+  | [], w => by simp [walkBlocks, contTrees, runList, toBlocks]
+  | b :: bs, w => by
     simp only [walkBlocks, contTrees, runList]
-    rw [← walkCont_eq p 0 b w hc.1]
+    rw [← walkCont_eq p 0 b w]
     rcases three (walkCont p 0 b w).1 with h | h | ⟨h1, h2⟩
     · simp only [h, if_true, classify_go h]
-      exact walkBlocks_eq p bs _ hc.2
+      exact walkBlocks_eq p bs _
     · have : SKIP_SIBLINGS ≠ END := by decide
       simp only [h, sib_not_go, if_false, true_or, if_true, classify_sib, toBlocks]
     · simp only [h1, h2, if_false, false_or, classify_stop h1 h2, toBlocks]
@@ -316,14 +326,14 @@ theorem walkBlocks_eq (p : Prog) : ∀ (bs : List WCont) (w : W), noEmptyLoops b
       · simp only [he, if_true]
       · simp only [he, if_false]
 
-/-- **refinement**: on CIFs without packet-less loops, for every handler program, the model
-    of cif_walk delivers exactly the callbacks and the result of the pruning semantics -/
-theorem walk_eq_spec (p : Prog) (c : WCif) (hc : noEmptyLoops c = true) :
+/-- **refinement**: on every CIF (packet-less loops included: the tree has a failure point there), for every handler
+    program, the model of cif_walk delivers exactly the callbacks and the result of the pruning semantics -/
+theorem walk_eq_spec (p : Prog) (c : WCif) :
     walk p c = walkSpec p c := by
   simp only [walk, walkSpec, walkW, cifTree, run, runList, call]
   by_cases hs : p W.init.n Ev.cifStart = CONTINUE
   · simp only [hs, if_true]
-    rw [walkBlocks_eq p c _ hc]
+    rw [walkBlocks_eq p c _]
     generalize hx : runList p (contTrees 0 c) _ = x
     rcases x with ⟨o, w1⟩
     cases o with
@@ -403,7 +413,8 @@ theorem clean_get (p : Prog) : ∀ (l : List Ev) (n : Nat), Clean p n l →
 def Trace (p : Prog) (w : W) (x : Out × W) : Prop :=
   ∃ l : List Ev, x.2.log = l.reverse ++ w.log ∧ x.2.n = w.n + l.length ∧
     match x.1 with
-    | .stop r => ∃ l0 e, l = l0 ++ [e] ∧ Clean p w.n l0 ∧ p (w.n + l0.length) e = r ∧ isStop r
+    | .stop r => (∃ l0 e, l = l0 ++ [e] ∧ Clean p w.n l0 ∧ p (w.n + l0.length) e = r ∧ isStop r)
+        ∨ (Clean p w.n l ∧ r = EMPTY_LOOP)        -- a failure point of the tree: no callback answered `r`
     | _ => Clean p w.n l
 
 theorem not_isStop_of_go {r : Int} (h : classify r = .go) : ¬ isStop r := by
@@ -428,7 +439,7 @@ theorem trace_call (p : Prog) (w : W) (e : Ev) : Trace p w (classify (p w.n e), 
   | sib => exact ⟨not_isStop_of_sib hc, trivial⟩
   | stop r =>
     have := classify_eq_stop hc
-    exact ⟨[], e, rfl, trivial, by simpa using this.1.symm, this.1 ▸ this.2⟩
+    exact Or.inl ⟨[], e, rfl, trivial, by simpa using this.1.symm, this.1 ▸ this.2⟩
 
 /-- sequencing: a non-stopping stretch followed by anything -/
 theorem trace_trans (p : Prog) (w w1 : W) (o1 : Out) (x : Out × W) (h1 : Trace p w (o1, w1))
@@ -447,10 +458,11 @@ theorem trace_trans (p : Prog) (w w1 : W) (o1 : Out) (x : Out × W) (h1 : Trace 
   | go => exact (clean_append p l1 l2 w.n).mpr ⟨hclean1, hn1 ▸ hc2⟩
   | sib => exact (clean_append p l1 l2 w.n).mpr ⟨hclean1, hn1 ▸ hc2⟩
   | stop r =>
-    obtain ⟨l0, e, he, hc0, hp0, hs⟩ := hc2
-    refine ⟨l1 ++ l0, e, by simp [he], (clean_append p l1 l0 w.n).mpr ⟨hclean1, hn1 ▸ hc0⟩, ?_, hs⟩
-    rw [← hp0, hn1]
-    simp [Nat.add_assoc]
+    rcases hc2 with ⟨l0, e, he, hc0, hp0, hs⟩ | ⟨hc0, hr⟩
+    · refine Or.inl ⟨l1 ++ l0, e, by simp [he], (clean_append p l1 l0 w.n).mpr ⟨hclean1, hn1 ▸ hc0⟩, ?_, hs⟩
+      rw [← hp0, hn1]
+      simp [Nat.add_assoc]
+    · exact Or.inr ⟨(clean_append p l1 l2 w.n).mpr ⟨hclean1, hn1 ▸ hc0⟩, hr⟩
 
 theorem trace_go_of_sib (p : Prog) (w w1 : W) (h : Trace p w (.sib, w1)) : Trace p w (.go, w1) := h
 
@@ -466,6 +478,9 @@ theorem trace_finish (p : Prog) (e : Ev) (w : W) (x : Out × W) (h : Trace p w x
 mutual
   theorem run_trace (p : Prog) : ∀ (t : ETree) (w : W), Trace p w (run p t w)
     | .leaf e, w => by simp only [run]; exact trace_call p w e
+    | .fail, w => by
+      simp only [run]
+      exact ⟨[], by simp, by simp, Or.inr ⟨trivial, rfl⟩⟩
     | .node s g1 g2 e, w => by
       simp only [run]
       by_cases hc : p w.n s = CONTINUE
@@ -499,76 +514,257 @@ mutual
       | stop r => exact h1
 end
 
-/-- a stopping answer is the last callback and determines the result; without one the result is CIF_OK -/
+/-- a stopping answer is the last callback and determines the result; without one the result is CIF_OK, unless the walk ran
+    into a failure point (a packet-less loop) -/
 theorem stop_of_trace (p : Prog) (x : Out × W) (ht : Trace p W.init x) :
     (∀ (k : Nat) (h : k < x.2.log.reverse.length), isStop (p k x.2.log.reverse[k]) →
         k + 1 = x.2.log.reverse.length ∧
         finalCode x.1 = (if p k x.2.log.reverse[k] = END then OK else p k x.2.log.reverse[k]))
-    ∧ ((∀ (k : Nat) (h : k < x.2.log.reverse.length), ¬ isStop (p k x.2.log.reverse[k])) → finalCode x.1 = OK) := by
+    ∧ ((∀ (k : Nat) (h : k < x.2.log.reverse.length), ¬ isStop (p k x.2.log.reverse[k])) →
+        finalCode x.1 = OK ∨ x.1 = .stop EMPTY_LOOP) := by
   rcases x with ⟨o, w1⟩
   obtain ⟨l, hl, hn, hc⟩ := ht
   simp only [W.init, List.append_nil] at hl hn
   simp only [hl, List.reverse_reverse]
   cases o with
   | go =>
-    refine ⟨fun k h hs => absurd hs ?_, fun _ => rfl⟩
+    refine ⟨fun k h hs => absurd hs ?_, fun _ => Or.inl rfl⟩
     simpa using clean_get p l 0 hc k h
   | sib =>
-    refine ⟨fun k h hs => absurd hs ?_, fun _ => rfl⟩
+    refine ⟨fun k h hs => absurd hs ?_, fun _ => Or.inl rfl⟩
     simpa using clean_get p l 0 hc k h
   | stop r =>
-    obtain ⟨l0, e, he, hc0, hp0, hs0⟩ := hc
-    simp only [W.init, Nat.zero_add] at hp0
-    subst he
-    have hlast : (l0 ++ [e])[l0.length]'(by simp) = e := by simp
-    constructor
-    · intro k h hs
-      have hk : k = l0.length := by
-        by_cases hlt : k < l0.length
-        · have := clean_get p l0 0 hc0 k hlt
-          simp only [Nat.zero_add] at this
-          rw [List.getElem_append_left hlt] at hs
-          exact absurd hs this
-        · simp at h; omega
-      subst hk
-      simp only [hlast, hp0, finalCode, List.length_append, List.length_singleton, and_self]
-    · intro hall
-      have := hall l0.length (by simp)
-      rw [hlast, hp0] at this
-      exact absurd hs0 this
+    rcases hc with ⟨l0, e, he, hc0, hp0, hs0⟩ | ⟨hc0, hr⟩
+    · simp only [W.init, Nat.zero_add] at hp0
+      subst he
+      have hlast : (l0 ++ [e])[l0.length]'(by simp) = e := by simp
+      constructor
+      · intro k h hs
+        have hk : k = l0.length := by
+          by_cases hlt : k < l0.length
+          · have := clean_get p l0 0 hc0 k hlt
+            simp only [Nat.zero_add] at this
+            rw [List.getElem_append_left hlt] at hs
+            exact absurd hs this
+          · simp at h; omega
+        subst hk
+        simp only [hlast, hp0, finalCode, List.length_append, List.length_singleton, and_self]
+      · intro hall
+        have := hall l0.length (by simp)
+        rw [hlast, hp0] at this
+        exact absurd hs0 this
+    · subst hr
+      refine ⟨fun k h hs => absurd hs ?_, fun _ => Or.inr rfl⟩
+      simpa using clean_get p l 0 hc0 k h
 
 theorem spec_stop (p : Prog) (c : WCif) :
     (∀ (k : Nat) (h : k < (walkSpec p c).1.length), isStop (p k (walkSpec p c).1[k]) →
         k + 1 = (walkSpec p c).1.length ∧
         (walkSpec p c).2 = (if p k (walkSpec p c).1[k] = END then OK else p k (walkSpec p c).1[k]))
-    ∧ ((∀ (k : Nat) (h : k < (walkSpec p c).1.length), ¬ isStop (p k (walkSpec p c).1[k])) → (walkSpec p c).2 = OK) :=
-  stop_of_trace p (run p (cifTree c) W.init) (run_trace p (cifTree c) W.init)
+    ∧ ((∀ (k : Nat) (h : k < (walkSpec p c).1.length), ¬ isStop (p k (walkSpec p c).1[k])) →
+        (walkSpec p c).2 = OK ∨ (walkSpec p c).2 = EMPTY_LOOP) := by
+  have h := stop_of_trace p (run p (cifTree c) W.init) (run_trace p (cifTree c) W.init)
+  refine ⟨h.1, fun hall => ?_⟩
+  rcases h.2 hall with h1 | h1
+  · exact Or.inl h1
+  · right
+    show finalCode (run p (cifTree c) W.init).1 = EMPTY_LOOP
+    rw [h1]; decide
+
+-- ---- trees without failure points -----------------------------------------------------------------------------------------
+
+theorem noFailList_map_leaf (is : List (Str × V)) : noFailList (is.map itemTree) = true := by
+  induction is with
+  | nil => rfl
+  | cons a r ih => simp [noFailList, noFail, itemTree, ih]
+
+theorem noFailList_packets (pks : List (List (Str × V))) : noFailList (pks.map packetTree) = true := by
+  induction pks with
+  | nil => rfl
+  | cons a r ih => simp [noFailList, noFail, packetTree, noFailList_map_leaf, ih]
+
+theorem noFailList_loops : ∀ (ls : List WLoop), ls.all (fun l => !l.packets.isEmpty) = true →
+    noFailList (ls.map loopTree) = true
+  | [], _ => rfl
+  | l :: ls, h => by
+    simp only [List.all_cons, Bool.and_eq_true, Bool.not_eq_true'] at h
+    simp only [List.map, noFailList, loopTree, noFail, h.1, Bool.false_eq_true, if_false, noFailList_packets, Bool.and_self,
+      Bool.true_and]
+    exact noFailList_loops ls h.2
+
+mutual
+  theorem noFail_cont : ∀ (d : Nat) (c : WCont), noEmptyLoop c = true → noFail (contTree d c) = true
+    | d, .mk code frames loops, h => by
+      simp only [noEmptyLoop, Bool.and_eq_true] at h
+      simp only [contTree, noFail, noFail_conts (d + 1) frames h.1, noFailList_loops loops h.2, Bool.and_self]
+  theorem noFail_conts : ∀ (d : Nat) (cs : List WCont), noEmptyLoops cs = true → noFailList (contTrees d cs) = true
+    | d, [], _ => rfl
+    | d, c :: cs, h => by
+      simp only [noEmptyLoops, Bool.and_eq_true] at h
+      simp only [contTrees, noFailList, noFail_cont d c h.1, noFail_conts d cs h.2, Bool.and_self]
+end
+
+theorem noFail_cif (c : WCif) (h : noEmptyLoops c = true) : noFail (cifTree c) = true := by
+  simp only [cifTree, noFail, noFailList, noFail_conts 0 c h, Bool.and_self]
+
+mutual
+  /-- in a tree without failure points a `stop r` outcome carries a handler's answer -/
+  theorem run_fromprog (p : Prog) : ∀ (t : ETree) (w w' : W) (r : Int), noFail t = true → run p t w = (.stop r, w') →
+      ∃ k e, p k e = r
+    | .leaf e, w, w', r, _, h => by
+      simp only [run] at h
+      injection h with h1 h2
+      exact ⟨_, _, (classify_eq_stop h1).1.symm⟩
+    | .fail, _, _, _, hnf, _ => by simp [noFail] at hnf
+    | .node s g1 g2 e, w, w', r, hnf, h => by
+      simp only [noFail, Bool.and_eq_true] at hnf
+      simp only [run] at h
+      have hfin : ∀ (x : Out × W), (∀ r' w1, x = (.stop r', w1) → ∃ k e, p k e = r') → finish p e x = (.stop r, w') →
+          ∃ k e, p k e = r := by
+        intro x hx hf
+        rcases x with ⟨o, w1⟩
+        cases o with
+        | go =>
+          simp only [finish] at hf
+          injection hf with h1 h2
+          exact ⟨_, _, (classify_eq_stop h1).1.symm⟩
+        | sib => simp [finish] at hf
+        | stop r' =>
+          simp only [finish] at hf
+          injection hf with h1 h2
+          injection h1 with h1
+          subst h1
+          exact hx _ _ rfl
+      by_cases hc : p w.n s = CONTINUE
+      · simp only [hc, if_true] at h
+        generalize h1 : runList p g1 (call p w s).2 = x1 at h
+        rcases x1 with ⟨o1, w1⟩
+        cases o1 with
+        | stop r1 =>
+          simp only at h
+          injection h with h2 h3
+          injection h2 with h2
+          subst h2
+          exact runList_fromprog p g1 _ _ _ hnf.1 h1
+        | go =>
+          simp only at h
+          exact hfin _ (fun r' w2 hx => runList_fromprog p g2 _ _ _ hnf.2 hx) h
+        | sib =>
+          simp only at h
+          exact hfin _ (fun r' w2 hx => runList_fromprog p g2 _ _ _ hnf.2 hx) h
+      · simp only [hc, if_false] at h
+        injection h with h1 h2
+        exact ⟨_, _, (classify_eq_stop h1).1.symm⟩
+  theorem runList_fromprog (p : Prog) : ∀ (ts : List ETree) (w w' : W) (r : Int), noFailList ts = true →
+      runList p ts w = (.stop r, w') → ∃ k e, p k e = r
+    | [], w, w', r, _, h => by simp [runList] at h
+    | t :: ts, w, w', r, hnf, h => by
+      simp only [noFailList, Bool.and_eq_true] at hnf
+      simp only [runList] at h
+      generalize h1 : run p t w = x1 at h
+      rcases x1 with ⟨o1, w1⟩
+      cases o1 with
+      | go => exact runList_fromprog p ts _ _ _ hnf.2 h
+      | sib => simp at h
+      | stop r1 =>
+        simp only at h
+        injection h with h2 h3
+        injection h2 with h2
+        subst h2
+        exact run_fromprog p t _ _ _ hnf.1 h1
+end
 
 /-- the program that always continues -/
 def allCont : Prog := fun _ _ => CONTINUE
 
 mutual
-  theorem run_allCont : ∀ (t : ETree) (w : W),
+  theorem run_allCont : ∀ (t : ETree) (w : W), noFail t = true →
       run allCont t w = (.go, { n := w.n + (flatten t).length, log := (flatten t).reverse ++ w.log })
-    | .leaf e, w => by
+    | .leaf e, w, _ => by
       have hc : classify (allCont w.n e) = .go := classify_go (Or.inl rfl)
       simp [run, hc, call, flatten]
-    | .node s g1 g2 e, w => by
+    | .fail, _, h => by simp [noFail] at h
+    | .node s g1 g2 e, w, h => by
+      simp only [noFail, Bool.and_eq_true] at h
       have hc : ∀ k e, classify (allCont k e) = .go := fun _ _ => classify_go (Or.inl rfl)
       have h0 : allCont w.n s = CONTINUE := rfl
       simp only [run, h0, if_true, call]
-      have h1 := runList_allCont g1 { n := w.n + 1, log := s :: w.log }
+      have h1 := runList_allCont g1 { n := w.n + 1, log := s :: w.log } h.1
       rw [h1]
       have h2 := runList_allCont g2
-        { n := w.n + 1 + (flattenList g1).length, log := (flattenList g1).reverse ++ s :: w.log }
+        { n := w.n + 1 + (flattenList g1).length, log := (flattenList g1).reverse ++ s :: w.log } h.2
       simp only [h2, finish, call, flatten, hc]
       simp [Nat.add_assoc, Nat.add_comm, Nat.add_left_comm]
-  theorem runList_allCont : ∀ (ts : List ETree) (w : W),
+  theorem runList_allCont : ∀ (ts : List ETree) (w : W), noFailList ts = true →
       runList allCont ts w = (.go, { n := w.n + (flattenList ts).length, log := (flattenList ts).reverse ++ w.log })
-    | [], w => by simp [runList, flattenList]
-    | t :: ts, w => by
-      simp only [runList, run_allCont t w, runList_allCont ts, flattenList]
+    | [], w, _ => by simp [runList, flattenList]
+    | t :: ts, w, h => by
+      simp only [noFailList, Bool.and_eq_true] at h
+      simp only [runList, run_allCont t w h.1, runList_allCont ts _ h.2, flattenList]
       simp [Nat.add_assoc]
 end
+
+-- ---- what is delivered is a sublist of the full traversal ---------------------------------------------------------------
+
+theorem finish_sublist (p : Prog) (e : Ev) (w : W) (x : Out × W) (l : List Ev) (h : x.2.log = l.reverse ++ w.log) :
+    ∃ l' : List Ev, (finish p e x).2.log = l'.reverse ++ w.log ∧ l'.Sublist (l ++ [e]) ∧ l.Sublist l' := by
+  rcases x with ⟨o, w1⟩
+  cases o with
+  | go => exact ⟨l ++ [e], by simp only at h; simp [finish, call, h], List.Sublist.refl _, List.sublist_append_left _ _⟩
+  | sib => exact ⟨l, by simpa [finish] using h, List.sublist_append_left _ _, List.Sublist.refl _⟩
+  | stop r => exact ⟨l, by simpa [finish] using h, List.sublist_append_left _ _, List.Sublist.refl _⟩
+
+mutual
+  theorem run_sublist (p : Prog) : ∀ (t : ETree) (w : W),
+      ∃ l : List Ev, (run p t w).2.log = l.reverse ++ w.log ∧ l.Sublist (flatten t)
+    | .leaf e, w => ⟨[e], by simp [run, call], by simp [flatten]⟩
+    | .fail, w => ⟨[], by simp [run], by simp [flatten]⟩
+    | .node s g1 g2 e, w => by
+      simp only [run, flatten]
+      by_cases hc : p w.n s = CONTINUE
+      · simp only [hc, if_true]
+        obtain ⟨l1, h1, s1⟩ := runList_sublist p g1 (call p w s).2
+        generalize hx : runList p g1 (call p w s).2 = x1 at h1
+        rcases x1 with ⟨o1, w1⟩
+        have hcall : (call p w s).2.log = s :: w.log := rfl
+        have key : ∀ (y : Out × W), y = finish p e (runList p g2 w1) →
+            ∃ l : List Ev, y.2.log = l.reverse ++ w.log ∧ l.Sublist (s :: (flattenList g1 ++ (flattenList g2 ++ [e]))) := by
+          intro y hy
+          obtain ⟨l2, h2, s2⟩ := runList_sublist p g2 w1
+          obtain ⟨l3, h3, s3, _⟩ := finish_sublist p e w1 _ l2 h2
+          refine ⟨s :: (l1 ++ l3), ?_, ?_⟩
+          · rw [hy, h3]; simp only at h1; rw [h1, hcall]; simp
+          · exact List.Sublist.cons₂ _ (List.Sublist.append s1 (s3.trans (List.Sublist.append s2 (List.Sublist.refl _))))
+        cases o1 with
+        | stop r =>
+          refine ⟨s :: l1, ?_, List.Sublist.cons₂ _ (s1.trans (List.sublist_append_left _ _))⟩
+          simp only at h1 ⊢; rw [h1, hcall]; simp
+        | go => exact key _ rfl
+        | sib => exact key _ rfl
+      · simp only [hc, if_false]
+        exact ⟨[s], by simp [call], by simp⟩
+  theorem runList_sublist (p : Prog) : ∀ (ts : List ETree) (w : W),
+      ∃ l : List Ev, (runList p ts w).2.log = l.reverse ++ w.log ∧ l.Sublist (flattenList ts)
+    | [], w => ⟨[], by simp [runList], by simp [flattenList]⟩
+    | t :: ts, w => by
+      simp only [runList, flattenList]
+      obtain ⟨l1, h1, s1⟩ := run_sublist p t w
+      generalize hx : run p t w = x1 at h1
+      rcases x1 with ⟨o1, w1⟩
+      cases o1 with
+      | go =>
+        obtain ⟨l2, h2, s2⟩ := runList_sublist p ts w1
+        refine ⟨l1 ++ l2, ?_, List.Sublist.append s1 s2⟩
+        simp only at h1 ⊢; rw [h2, h1]; simp
+      | sib => exact ⟨l1, h1, s1.trans (List.sublist_append_left _ _)⟩
+      | stop r => exact ⟨l1, h1, s1.trans (List.sublist_append_left _ _)⟩
+end
+
+/-- the callbacks of the pruning semantics are, in order, callbacks of the full traversal -/
+theorem spec_sublist (p : Prog) (c : WCif) : (walkSpec p c).1.Sublist (fullTraversal c) := by
+  obtain ⟨l, h1, h2⟩ := run_sublist p (cifTree c) W.init
+  simp only [walkSpec, fullTraversal]
+  rw [h1]
+  simpa [W.init] using h2
 
 end CifModel.Lemmas.Walk
